@@ -94,6 +94,12 @@ Definition members_same (pre post : obs) : bool :=
 
 Definition actor (sender : N) (o : op) : N := sender.
 
+(* the property does not fix an order among hooks: lists of hook addresses are compared as multisets *)
+Fixpoint ins_sorted (x : N) (l : list N) : list N :=
+  match l with [] => [x] | y :: r => if x <=? y then x :: l else y :: ins_sorted x r end.
+Definition sortN (l : list N) : list N := fold_right ins_sorted [] l.
+Definition perm_eqb (a b : list N) : bool := nlist_eqb (sortN a) (sortN b).
+
 Definition s_c14 (stake_c : bool) (npool : N) (pre post : obs) (sender : N) (o : op) (hok ok : bool)
            (ms : list msg) : N :=
   let core_same := optN_eqb (ob_admin pre) (ob_admin post) && nlist_eqb (ob_hooks pre) (ob_hooks post) in
@@ -109,9 +115,9 @@ Definition s_c14 (stake_c : bool) (npool : N) (pre post : obs) (sender : N) (o :
                               | None => optN_eqb (ob_admin post) None
                               end && nlist_eqb (ob_hooks pre) (ob_hooks post) && grp_same
            | AddHook (Some x) => optN_eqb (ob_admin pre) (ob_admin post) && negb (mem x (ob_hooks pre)) &&
-                                 nlist_eqb (ob_hooks post) (ob_hooks pre ++ [x]) && grp_same
+                                 perm_eqb (ob_hooks post) (ob_hooks pre ++ [x]) && grp_same
            | RemoveHook (Some x) => optN_eqb (ob_admin pre) (ob_admin post) && mem x (ob_hooks pre) &&
-                                    nlist_eqb (ob_hooks post) (remove_first x (ob_hooks pre)) && grp_same
+                                    perm_eqb (ob_hooks post) (remove_first x (ob_hooks pre)) && grp_same
            | UpdateMembers _ _ => core_same && negb stake_c
            | _ => false
            end) then 1                                   (* admin / hooks / group membership changed illegitimately *)
@@ -133,7 +139,7 @@ Definition s_c14 (stake_c : bool) (npool : N) (pre post : obs) (sender : N) (o :
           | _ => if stake_c && negb weights_changed then 0 else 4       (* a registered hook was not notified *)
           end
       | (_, ds) :: _ =>
-          if negb (nlist_eqb (map fst hp) (ob_hooks pre)) then 5          (* not exactly one per hook, in order *)
+          if negb (perm_eqb (map fst hp) (ob_hooks pre)) then 5           (* not exactly one notification per registered hook *)
           else if negb (forallb (fun x => list_eqb diff_eqb (snd x) ds) hp) then 6   (* payloads differ *)
           else match apply_diffs ds (ob_list pre) with
                | None => 7                                                 (* an entry's old weight is not true *)
